@@ -605,6 +605,15 @@ pub fn conclude(id: &str, tier: Tier, seed: u64, t0: Instant, m: &Merged, fin: F
     for (k, v) in fin.extras {
         cov.insert(k, v);
     }
+    let secondary = out_dir().join(format!("{id}-secondary.json"));
+    if std::env::var("RVMON_EVIDENCE_ALT").is_err() {
+        if let Ok(txt) = std::fs::read_to_string(&secondary) {
+            if let Ok(j) = serde_json::from_str::<J>(&txt) {
+                cov.insert("secondary_pass".into(), json!({"profile": j["coverage"]["profile"], "tier": j["tier"], "evaluations": j["coverage"]["evaluations"], "distinct_nontrivial": j["coverage"]["distinct_nontrivial"], "violations": j["violations"], "wall_s": j["wall_s"]}));
+            }
+            let _ = std::fs::remove_file(&secondary);
+        }
+    }
     let ev = json!({
         "property_id": id,
         "tier": tier.name(),
@@ -615,7 +624,10 @@ pub fn conclude(id: &str, tier: Tier, seed: u64, t0: Instant, m: &Merged, fin: F
         "wall_s": t0.elapsed().as_secs_f64(),
         "violations": new_violations.len(),
     });
-    if std::env::var("RVMON_NO_EVIDENCE").is_err() {
+    if let Ok(alt) = std::env::var("RVMON_EVIDENCE_ALT") {
+        // a secondary pass (e.g. the plain-release build of C01/C02): its summary is folded into the main run's evidence
+        std::fs::write(alt, serde_json::to_string(&ev).unwrap()).ok();
+    } else if std::env::var("RVMON_NO_EVIDENCE").is_err() {
         let evdir = verif_dir().join("evidence");
         std::fs::create_dir_all(&evdir).ok();
         std::fs::write(evdir.join(format!("{id}.json")), serde_json::to_string_pretty(&ev).unwrap()).expect("write evidence");
